@@ -124,15 +124,15 @@ PROPS = {
         level_text="Fault enumeration: for each generated workload the sink fails at every write index k = 1..N (N counted in a fault-free run) in three modes; "
                    "the API call in flight must return a non-nil error and nothing may panic.",
         level_note="Trusted: the harness's failing io.Writer, which records which API call was executing when it failed. Nothing is asserted about calls after the failing one.",
-        fixtures=["tiny", "flat24", "nest"],
+        fixtures=["tiny", "flat24", "nest", "big"],
         gen_anchored=True,
-        stages=[dict(test="TestC09", kind="rapid", quick=32, thorough=640, timeout_thorough=3600)],
+        stages=[dict(test="TestC09", kind="rapid", quick=32, thorough=640, timeout_thorough=3600), dict(test="TestC09Big", kind="enum", quick=1, thorough=1, shards=6)],
         replay="TestReplayC09",
         rule="rapid workloads (<= 10 records, <= 3 batches, page size often 1..4, all codecs, fixtures tiny/flat24/nest); for every k in 1..N (N = number of Write calls "
              "the sink sees in the fault-free run) and mode in {fail once, fail from k on, short write (n<len, err), the first two also with a net-style Temporary()/Timeout() error and with a sink that additionally offers Seek and Truncate like *os.File} the history NewParquetWriter, Add.., Write.., Close is "
              "replayed; the API call during which the sink first failed must return a non-nil error; no panic. One evaluation = one (workload, k, mode); each is classified by "
              "the part of the file the k-th write carries (magic, page-header, page-body, footer, footer-length, trailing-magic) per codec - see class_histogram. "
-             "All fault points are non-trivial (a fault is really injected); distinct by (workload hash, k, mode).",
+             "All fault points are non-trivial (a fault is really injected); distinct by (workload hash, k, mode). Stage TestC09Big: the same enumeration over six fixed files of 1500 records with one page of 70-300 KiB per column (fixture big: required, optional and repeated columns; 3 codecs x {one, two} row groups).",
     ),
     "C10": dict(
         level="fault_enumeration",
